@@ -587,7 +587,46 @@ def route_wf_state(v):
     return ku.run(go())
 
 
-ROUTES = {"unit": route_unit, "vf": route_vf, "rf": route_rf, "wf": route_wf, "wf-state": route_wf_state}
+def route_rf_patch(v):
+    """the UPDATE path: the object already exists and has drifted (one other leaf differs), default `update: patch`;
+    the literal in `resource` and in an inline overlay is observed in the PATCH body"""
+    import celpy
+    import cluster
+    import koreo_util as ku
+    from koreo.resource_function.reconcile import reconcile_resource_function
+
+    ku.reset()
+    cl = cluster.Cluster()
+    cl.put("v1", "configmaps", "ns", "c11-cm", {"apiVersion": "v1", "kind": "ConfigMap",
+                                                "metadata": {"name": "c11-cm", "namespace": "ns"}, "marker": "drifted"})
+
+    async def go():
+        spec = {"apiConfig": {"apiVersion": "v1", "kind": "ConfigMap", "plural": "configmaps", "name": "c11-cm",
+                              "namespace": "ns", "owned": False},
+                "resource": {"marker": "wanted", "data": v, "wrap": {"inner": [v]}},
+                "overlays": [{"overlay": {"viaOverlay": v}}]}
+        fn = await ku.offer_resource_function("c11-rf", spec)
+        if _obs(fn) != "ok":
+            return ("prepare-" + _obs(fn), None)
+        await reconcile_resource_function(api=cl, location="c11", function=fn, owner=("other", dict(ku.OWNER_REF)),
+                                          inputs=celpy.json_to_cel({}))
+        muts = cl.mutations()
+        if len(muts) != 1 or muts[0]["method"] != "PATCH":
+            return ("-".join(m["method"] for m in muts) + "-instead-of-one-PATCH", None)
+        body = muts[0]["body"]
+        if not isinstance(body, dict) or body.get("marker") != "wanted":
+            return ("bad-body", None)
+        wrap = body.get("wrap")
+        return ("ok", {"resource (PATCH body)": body.get("data", "<missing from the PATCH body>"),
+                       "resource.nested (PATCH body)": wrap["inner"][0] if isinstance(wrap, dict) and isinstance(
+                           wrap.get("inner"), list) and len(wrap["inner"]) == 1 else "<missing from the PATCH body>",
+                       "overlay (PATCH body)": body.get("viaOverlay", "<missing from the PATCH body>")})
+
+    return ku.run(go())
+
+
+ROUTES = {"unit": route_unit, "vf": route_vf, "rf": route_rf, "rf-patch": route_rf_patch, "wf": route_wf,
+          "wf-state": route_wf_state}
 OV_ROUTES = {"ov-rf": route_ov_rf, "ov-create": route_ov_create, "ov-vf": route_ov_vf}
 ALL_ROUTES = {**ROUTES, **OV_ROUTES}
 
@@ -1028,9 +1067,9 @@ def run(tier: str) -> int:
              "look-alikes, quote runs of 1-4 at start/middle/end, numerals and one-edit near-numerals, Unicode digits, "
              "blanks, empty containers, int64 extremes, floats k/8): exact text of encode_cel vs the model; real celpy's token stream vs the model tokenizer on the "
              "emitted texts (and on hand-built texts of the sub-language incl. white space, 1. .5 1.e5); celpy vs the "
-             "model lexer on the emitted literals and on hand-built literal texts; the real pipeline on five routes "
-             "(expression, ValueFunction return/locals, ResourceFunction resource/overlay POST body, Workflow "
-             "inputs/state, Workflow `state` of eight Ok steps whose Logic returns null, null, [], {} and their truthy "
+             "model lexer on the emitted literals and on hand-built literal texts; the real pipeline on six routes "
+             "(expression, ValueFunction return/locals, ResourceFunction resource/overlay POST body and — for an object that "
+             "exists and drifted — PATCH body, Workflow inputs/state, Workflow `state` of eight Ok steps whose Logic returns null, null, [], {} and their truthy "
              "counterparts) and, for written overlay leaves incl. {} [] \"\", on three overlay-onto-base routes "
              "(overlays[].overlay, create.overlay, ValueFunction return on a base) over bases holding non-empty "
              "maps/lists/scalars. non-trivial = strings containing a quote, backslash, newline, CR, tab or non-ASCII "
@@ -1063,6 +1102,11 @@ def search(ck, quick_budget: bool, salt: str = ""):
                 batch.append(v)
                 ck.count("oracle:unit-value")
         oracle_batch(ck, batch, "unit")
+    for nv in ([None], {"a": None}, {"a": {"b": None, "c": 1}, "d": None}, [None, {"v": None}, 0], {"": None},
+               {"k": [], "m": {}, "s": "", "z": 0, "f": False, "n": None}):
+        for route in ("vf", "rf", "rf-patch", "wf", "wf-state"):
+            ck.count(f"oracle:{route}")
+            oracle_batch_e2e(ck, nv, route)
     n_e2e = 150 if quick_budget else 3000
     for i in range(n_e2e):
         batch = []
@@ -1073,7 +1117,7 @@ def search(ck, quick_budget: bool, salt: str = ""):
         used: set = set()
         composite = {gen_key(r, used): b for b in batch[:3]}
         composite["list"] = batch[3:]
-        for route in ("vf", "rf", "wf", "wf-state"):
+        for route in ("vf", "rf", "rf-patch", "wf", "wf-state"):
             ck.count(f"oracle:{route}")
             if in_domain(composite):
                 oracle_batch_e2e(ck, composite, route)
